@@ -214,15 +214,15 @@ Definition own_store (n : ptr) (f : G -> G * V * list ev) : Prop := forall g,
                      lft (fst (fst (f g))) x = lft g x /\ rgt (fst (fst (f g))) x = rgt g x /\ emp (fst (fst (f g))) x = emp g x.
 
 Lemma D_own {R} t f (k : V -> prog R) lv n :
-  one_acc f -> own_store n f -> (4 <= n)%nat -> owner_of n = t ->
-  (forall g a, DS g a -> view a t = lv -> exists c',
+  one_acc f -> own_store n f ->
+  (forall g a, DS g a -> view a t = lv -> exists c', ((4 <= n)%nat /\ owner_of n = t) /\
       (chs c' = chs (wc lv) /\ cst c' = cst (wc lv) /\ (cser (wc lv) <= cser c')%nat) /\ dpub a n = false /\
       P_leaf (fst (fst (f g))) a t c' /\ P_ni (fst (fst (f g))) a t c' /\ P_fresh1 a t c' /\
       DSAFE t (k (snd (fst (f g)))) (mkDV (wf lv) c')) ->
   DSAFE t (Act f k) lv.
 Proof.
-  intros Hone Hst Hn Ho H. apply D_act_keep; [exact Hone|]. intros g a Hs Hv.
-  destruct (H g a Hs Hv) as (c' & (Ech & Est & Eser) & Pn & Hl & Hni & Hf1 & Hk). destruct (Hst g) as [Eu Eo]. set (g' := fst (fst (f g))) in *.
+  intros Hone Hst H. apply D_act_keep; [exact Hone|]. intros g a Hs Hv.
+  destruct (H g a Hs Hv) as (c' & (Hn & Ho) & (Ech & Est & Eser) & Pn & Hl & Hni & Hf1 & Hk). destruct (Hst g) as [Eu Eo]. set (g' := fst (fst (f g))) in *.
   exists (dmax a), (mkDV (wf lv) c'). cbv zeta.
   assert (Np : forall x, dpub a x = true -> x <> n) by (intros x Hx E; congruence).
   assert (R0 : stepR t g a g' (mk_a a t (dpub a) (dever a) (ddead a) (dmax a) (mkDV (wf lv) c') (datr a))).
@@ -274,10 +274,10 @@ Proof.
   assert (Hge : (4 <= leaf)%nat) by apply mk_id_ge.
   assert (Hown : owner_of leaf = t) by (apply mk_id_owner; lia).
   assert (Hser : ser_of leaf = sr) by (apply mk_id_ser; lia).
-  apply (D_own t _ k lv leaf); [apply o_st_flags|apply os_st_flags|exact Hge|exact Hown|]. intros g a Hs Hv.
+  apply (D_own t _ k lv leaf); [apply o_st_flags|apply os_st_flags|]. intros g a Hs Hv.
   destruct (parts_of g a t lv Hs Hv) as (V1 & V2 & V3 & V4 & V5 & V6).
   destruct (V5 leaf Hge Hown ltac:(lia)) as (Fp & Fl & Fn).
-  exists (mkC (Some leaf) (cni (wc lv)) (chs (wc lv)) (S sr) (cst (wc lv))).
+  exists (mkC (Some leaf) (cni (wc lv)) (chs (wc lv)) (S sr) (cst (wc lv))). split; [auto|].
   split; [cbn [chs cst cser]; split; [reflexivity|split; [reflexivity|lia]]|]. split; [exact Fp|].
   split; [|split; [|split; [|apply H]]].
   - unfold P_leaf. cbn [cleaf]. split; [repeat split; auto|]. cbn [a_st_flags fst snd flags]. unfold upd1. now rewrite Nat.eqb_refl.
@@ -299,10 +299,10 @@ Proof.
   assert (Hge : (4 <= ni)%nat) by apply mk_id_ge.
   assert (Hown : owner_of ni = t) by (apply mk_id_owner; lia).
   assert (Hser : ser_of ni = sr) by (apply mk_id_ser; lia).
-  apply (D_own t _ k lv ni); [apply o_st_flags|apply os_st_flags|exact Hge|exact Hown|]. intros g a Hs Hv.
+  apply (D_own t _ k lv ni); [apply o_st_flags|apply os_st_flags|]. intros g a Hs Hv.
   destruct (parts_of g a t lv Hs Hv) as (V1 & V2 & V3 & V4 & V5 & V6).
   destruct (V5 ni Hge Hown ltac:(lia)) as (Fp & Fl & Fn).
-  exists (mkC (cleaf (wc lv)) (Some (ni, 1, ikey g ni, lft g ni, rgt g ni)) (chs (wc lv)) (S sr) (cst (wc lv))).
+  exists (mkC (cleaf (wc lv)) (Some (ni, 1, ikey g ni, lft g ni, rgt g ni)) (chs (wc lv)) (S sr) (cst (wc lv))). split; [auto|].
   split; [cbn [chs cst cser]; split; [reflexivity|split; [reflexivity|lia]]|]. split; [exact Fp|].
   destruct (os_st_flags ni 1 g) as [_ Eo].
   split; [|split; [|split; [|apply H]]].
@@ -327,16 +327,10 @@ Lemma D_own_ni {R} t f (k : V -> prog R) lv ni f0 key0 l0 r0 f1 key1 l1 r1 :
   DSAFE t (Act f k) lv.
 Proof.
   intros Hone Hos Ho Hf H.
-  assert (Hpre : forall g a, DS g a -> view a t = lv -> (4 <= ni)%nat /\ owner_of ni = t).
-  { intros g a Hs Hv. destruct (parts_of g a t lv Hs Hv) as (_ & _ & V3 & _). unfold P_ni in V3. rewrite Ho in V3.
-    destruct V3 as (((O1 & O2 & O3) & O4) & _). auto. }
-  (* the owner facts do not depend on the state: take them from any state in which the step runs *)
-  unfold DSAFE. cbn [Conc.safe]. intros g a tr Hi Hv. pose proof Hi as [Hs _]. destruct (Hpre g a Hs Hv) as [Hge Hown].
-  assert (X : DSAFE t (Act f k) lv); [|exact (X g a tr Hi Hv)].
-  apply (D_own t f k lv ni Hone Hos Hge Hown). clear g a tr Hi Hv Hs. intros g a Hs Hv.
+  apply (D_own t f k lv ni Hone Hos). intros g a Hs Hv.
   destruct (parts_of g a t lv Hs Hv) as (V1 & V2 & V3 & V4 & V5 & V6).
   unfold P_ni in V3. rewrite Ho in V3. destruct V3 as (((O1 & O2 & O3) & O4) & E1 & E2 & E3 & E4).
-  exists (wc (set_ni lv (Some (ni, f1, key1, l1, r1)))). cbn [set_ni wc chs cst cser].
+  exists (wc (set_ni lv (Some (ni, f1, key1, l1, r1)))). cbn [set_ni wc chs cst cser]. split; [auto|].
   split; [split; [reflexivity|split; [reflexivity|lia]]|]. split; [exact O2|]. destruct (Hos g) as [_ Eo].
   split; [|split; [|split; [|apply H]]].
   - unfold P_leaf in *. cbn [cleaf]. destruct (cleaf (wc lv)) as [l|] eqn:El; [|exact Logic.I]. destruct V2 as [(L1 & L2 & L3) L4].
